@@ -93,7 +93,7 @@ def isinstance_model(I, v, clsv):
     if isinstance(v, STuple):
         cls = getattr(v, "cls", tuple)
         return is_a(lambda k: isinstance(k, type) and issubclass(cls, k))
-    if isinstance(v, (SList, LList)):
+    if isinstance(v, (SList, LList)) or getattr(v, "kind", None) == "mapped":
         return is_a(lambda k: k in (list, object) or k is collections.abc.Sequence)
     if isinstance(v, (SDict, LDict)):
         return is_a(lambda k: k in (dict, object))
@@ -249,6 +249,16 @@ def call_builtin(I, live, args, kwargs, node=None):
         if isinstance(v, (SInt, SBool)):
             return SInt(as_int(v))
         if isinstance(v, SStr):
+            t0 = simp(v.t)
+            # int(str(n)) for an int n: the decimal text of n parses back to n (both signs)
+            if z3.is_app(t0) and t0.decl().kind() == z3.Z3_OP_ITE and t0.num_args() == 3:
+                cnd, a_, b_ = t0.arg(0), t0.arg(1), t0.arg(2)
+                if z3.is_app(a_) and a_.decl().kind() == z3.Z3_OP_INT_TO_STR and str(cnd) == str(simp(a_.arg(0) >= 0)):
+                    n_ = a_.arg(0)
+                    if str(simp(b_)) == str(simp(z3.Concat(z3.StringVal("-"), z3.IntToStr(-n_)))):
+                        return SInt(n_)
+            if z3.is_app(t0) and t0.decl().kind() == z3.Z3_OP_INT_TO_STR and c.implied(t0.arg(0) >= 0):
+                return SInt(t0.arg(0))
             ok = z3.And(z3.Length(v.t) > 0, z3.StrToInt(v.t) >= 0)
             # strings that are plain decimal digits are modelled exactly; anything else
             # (sign, spaces, underscores) is an arbitrary int or ValueError
@@ -401,6 +411,11 @@ def call_builtin(I, live, args, kwargs, node=None):
                 # related to the canonical generic element:  p(generic) => A   (all: A => p(generic))
                 k, elem, n = I.codec.generic_of(v)
                 p = I.truth(elem)
+                # the predicate does not depend on the element at all: the answer is known
+                if z3.is_true(simp(p)) and live is all:
+                    return SBool(z3.BoolVal(True))
+                if z3.is_false(simp(p)) and live is any:
+                    return SBool(z3.BoolVal(False))
                 # the answer is a function of (collection, predicate): the same generator expression
                 # over the same collection gives the same answer
                 gkey = ("any_all", id(v.src), str(simp(p)), live is any)
@@ -510,6 +525,14 @@ def call_builtin(I, live, args, kwargs, node=None):
         return args[1]
     if live is builtins.hash:
         raise Unsupported("hash()")
+    if getattr(live, "__qualname__", "") == "bytes.fromhex" and len(args) == 1 and isinstance(I.unopt(args[0]), SStr):
+        # inverse of bytes.hex(): exact on the output of hex(), otherwise some bytes or ValueError
+        t = simp(I.unopt(args[0]).t)
+        if z3.is_app(t) and t.decl().name() == "py_bytes_hex":
+            return SBytes(t.arg(0))
+        ok = c.fresh("fromhex_ok", BoolS)
+        I.check_or_raise(ok, ValueError, "non-hexadecimal number found in fromhex() arg", node)
+        return SBytes(c.fresh("fromhex", BytesS))
     raise Unsupported(f"external function {qn}")
 
 
@@ -592,6 +615,11 @@ def sorted_model(I, v, kwargs, node):
 def call_method_model(I, recv, name, args, kwargs, node=None):
     c = I.ctx
     v = I.unopt(recv)
+    if v.kind == "mappeddict" and name == "items" and not args:
+        # {k: f(x) for k, x in d.items()}.items(): the pairs (k, f(x)) over the items of d
+        from .codec import SMapped
+
+        return SMapped(I.codec.dict_items(v.d, "items"), v.kv)
     if v.kind == "mapped" and name == "count":
         n = c.fresh("count", IntS)
         c.assume(z3.And(n >= 0, n <= I.codec.generic_of(v)[2]))
